@@ -450,3 +450,46 @@ def rule_core_forms(ctx, rule):
                 text, ("no longer holds %s" % lost) if lost else "", ((" and " if lost else "") + "holds %s more than once" % dup) if dup else "",
                 "dropped" if lost else "duplicated"), where)
     return decided
+
+
+# ------------------------------------------------------------------------------------------------ calls whose operator is a literal
+
+LITERAL_OPERATOR_TEXTS = ["(5 m1)", '("s" m1)', "(#t m1)", "(#\\a m1)", "(1.5 m1 m2)", "(1/2)", "((lambda () (7 m1)))", "(if m1 (5 m2) m3)",
+                          "(define (f1) (7 m1))", "(f1 (5 m1))", "(#(1 2) m1)"]
+
+
+def rule_literal_operators(ctx, rule):
+    """a call whose operator is a literal — (5 x), ("no" 1) — is a program like any other: it is *run*, and calling the non-procedure
+    is the run-time error of that call when (and only when) it is reached.  The parser must hand it over as a call with all its
+    sub-forms; rejecting it while reading turns a run-time fault of one call into a syntax error of the whole top-level form (the
+    effects before the call are lost, code that never reaches the call is refused)."""
+    import re
+    from .ctx import where_of
+    fb = ctx.fb()
+    pc = fb.find("parser::parser::Parser::parse_current", required=False)
+    where = where_of(pc) if pc is not None and not getattr(pc, "missing", False) else None
+    decided = 0
+    for text in LITERAL_OPERATOR_TEXTS:
+        key = "literal-operator/%s" % text
+        r = parse_statement(fb, text + " ")
+        if r[0] == "stuck":
+            ctx.undecided(rule, key, "cannot follow the parser on %r (%s)" % (text, r[1]), where)
+            continue
+        decided += 1
+        if r[0] == "error":
+            ctx.inst(rule, key, {"parsed": False})
+            ctx.oblige(False)
+            ctx.report(rule, key, "the form %s is rejected by the parser (%s): a call of a non-procedure is a run-time error of that call — here "
+                       "the whole top-level form is refused before anything runs, so effects before the call never happen, a procedure whose "
+                       "body holds the call is never defined, and code that does not reach the call is refused too" % (text, r[1]), where)
+            continue
+        names = set(re.findall(r"\b[mf][0-9]\b", text))
+        want = {n: len(re.findall(r"\b%s\b" % n, text)) for n in names}
+        got = {}
+        _count_strings(r[1], names, got)
+        good = got == want
+        ctx.inst(rule, key, {"parsed": True, "all_sub_forms_kept": good})
+        ctx.oblige(good)
+        if not good:
+            ctx.report(rule, key, "the parsed form of %s does not hold every sub-form (%s expected, %s found)" % (text, want, got), where)
+    return decided
